@@ -24,7 +24,7 @@ CLAIMS["C16"] = dict(
     cat="proof",
     text="Contracts on the real libavoid predicates. Leaf layer (complete over the stated finite domain): vecDir, colinear, pointOnLine, inBetween equal the exact "
          "integer orientation / on-segment oracle bit-precisely for integer coordinates in a small grid. Caller layer (all doubles): segmentIntersect and "
-         "segmentShapeIntersect equal their textbook definitions over an uninterpreted orientation; Point::operator==/!=; symmetry lemmas over the contracts.",
+         "segmentShapeIntersect equal their textbook definitions over an uninterpreted orientation; Point::operator==/!=; symmetry lemmas over the contracts; libvpsc's LineSegment::Intersect classifies as exact integer arithmetic does on a small grid.",
     note=BASE_TB + "Paper composition of leaf and caller layers (substitution of the exact orientation for the uninterpreted symbol). Grid side limited by solver time "
          "for FP multiplication. Returned intersection coordinates not claimed; segment end points of pointOnLine/inBetween unconstrained.",
     tech="CBMC code contracts on verbatim C++ slices; two-layer proof (bit-precise leaf on an integer grid + callers over an uninterpreted orientation)",
@@ -57,7 +57,7 @@ CLAIMS["C15"] = dict(
     cat="proof",
     text="Safety-class obligations (bounds, pointer validity, overflow, internal COLA_ASSERTs, frames, initialisation) of the functions under contract only: ActionInfo's six "
          "constructors determine type/objPtr/firstMove from their arguments; IncSolver::mostViolated indexes in bounds for every list length; Blocks::cleanup (bounded); and "
-         "the safety obligations of the C05/C16/C01/C20 contract jobs; ConnRef's destructor purges the router's pending-action queue for the connector in every state. Histories of API calls, lifetimes, leaks, termination are undecided residue (most of C15).",
+         "the safety obligations of the C05/C16/C01/C20 contract jobs; ConnRef's destructor purges the router's pending-action queue for the connector in every state; bounded: freeAssociatedObjects releases each compound constraint exactly once. Histories of API calls, lifetimes, leaks, termination are undecided residue (most of C15).",
     note=BASE_TB + "Only functions under contract, each under a call-site precondition. CBMC's treatment of uninitialised members as unconstrained values is the "
          "initialisation oracle. mostViolated runs with --no-pointer-check (elements unconstrained).",
     tech="CBMC code contracts + built-in safety checks on verbatim slices; two-construction determinism harness for uninitialised members; native placement-new replay",
